@@ -178,8 +178,8 @@ prop("C15", "exploration",
      crash_owner=True)
 
 prop("C05", "exploration",
-     quick=[("corrupt", "san", 160), ("corrupt", "fast", 1200)],
-     thorough=[("corrupt", "san", 40000), ("corrupt", "fast", 120000)],
+     quick=[("corrupt", "san", 100), ("corrupt", "fast", 1200), ("corruptgrid", "san", 180), ("corruptgrid", "fast", 540)],
+     thorough=[("corrupt", "san", 40000), ("corrupt", "fast", 120000), ("corruptgrid", "san", 5400), ("corruptgrid", "fast", 27000)],
      relevant=["corruptions", "page_corruptions"],
      rule="storage-fault histories on all 18 schemas under ASan+UBSan+_GLIBCXX_ASSERTIONS: a library with fully analysed tracks (library- "
           "and foreign-written blobs); each step damages one stored blob cell through a second SQLite connection (truncation at any "
@@ -188,8 +188,11 @@ prop("C05", "exploration",
           "cells, payload truncated with an intact frame, zeroed and duplicated ranges) or flips bits in raw database pages while the "
           "library is closed; then every reader runs: snapshot(), all getters, read-modify-write setters, track_table::get, per-column blob "
           "getters, X_blob::from_blob on the damaged bytes; ~25-40 corruptions per run; non-trivial = at least one corruption applied "
-          "and read; distinct = new plan digest reaching a new stored-payload hash.  This is seeded structured corruption of real stored "
-          "blobs, not coverage-guided fuzzing",
+          "and read; distinct = new plan digest reaching a new stored-payload hash.  The corruptgrid profile adds the systematic part: "
+          "stratified by run index over (schema, blob kind, damage mode) it walks whole grids - every truncation length of the cell and of the "
+          "payload in an intact frame, a byte damaged at every offset of the cell and of the payload, every count/length field and the length "
+          "prefix at every boundary value (capped at 1500 variants per walk) - through from_blob (2.x) and through the store + snapshot() (1.x "
+          "always, 2.x every 6th variant).  This is seeded structured corruption of real stored blobs, not coverage-guided fuzzing",
      assumptions=["a worker death (sanitizer exit code, signal, wall-clock alarm) is attributed to the run whose BEGIN line was flushed last",
                   "termination is decided deterministically by the inflate no-progress detector and the VM-tick budget; the 60 s alarm is a backstop",
                   "std::bad_alloc / std::length_error count as exceptions derived from std::exception (ASan runs with allocator_may_return_null=1)"],
